@@ -9,6 +9,7 @@ import (
 	"strings"
 
 	"github.com/6tail/lunar-go/LunarUtil"
+	"github.com/6tail/lunar-go/calendar"
 )
 
 func init() {
@@ -48,6 +49,7 @@ func js(parts ...interface{}) string {
 
 func runC18(w *W) {
 	perturbCache = true
+	walkLunar = true
 	// nayin law on the table: pairs 2k, 2k+1 share a nayin; each name covers exactly two consecutive pairs... (one element per name)
 	for k := 0; k < 30; k++ {
 		a, b := LunarUtil.NAYIN[gz(2*k)], LunarUtil.NAYIN[gz(2*k+1)]
@@ -194,6 +196,38 @@ func runC18(w *W) {
 				}
 			}
 			ec.SetSect(2)
+		}
+		// ---- hour objects taken from a day's list, with a receiver in the late-rat hour (even days) or at noon (odd days):
+		// the same tables, keyed by the pillars of the slot the item stands for (read from the directly built date)
+		{
+			recv := d.At(12, 0, 0)
+			if d.J%2 == 0 {
+				recv = d.At(23, 30, 0)
+			}
+			var items []*calendar.LunarTime
+			if msg, p := try(func() { items = recv.GetLunar().GetTimes() }); p {
+				w.Viol("C18:GetTimes:panic:"+d.Ymd, msg, d.Ymd)
+			}
+			for k, it := range items {
+				if k > 12 || (k+d.J)%3 != 0 {
+					continue // every third slot, rotating with the day
+				}
+				h := 0
+				if k > 0 {
+					h = 2*k - 1
+				}
+				l := d.At(h, 0, 0).GetLunar()
+				wit := fmt.Sprintf("%s GetTimes()[%d] of the %s object", d.Ymd, k, recv.ToYmdHms())
+				tgz := l.GetTimeInGanZhi()
+				w.R.Evals++
+				fd("hourStem", fmt.Sprint(l.GetTimeGanIndex()), js(it.GetPositionXi(), it.GetPositionXiDesc(), it.GetPositionYangGui(), it.GetPositionYangGuiDesc(), it.GetPositionYinGui(), it.GetPositionYinGuiDesc(),
+					it.GetPositionFu(), it.GetPositionFuDesc(), it.GetPositionCai(), it.GetPositionCaiDesc(), it.GetChongGan(), it.GetChongGanTie(),
+					it.GetPositionXi(), it.GetPositionXiDesc(), it.GetPositionYangGui(), it.GetPositionYangGuiDesc(), it.GetPositionYinGui(), it.GetPositionYinGuiDesc(), it.GetPositionFu(), it.GetPositionFuDesc(), it.GetPositionFuBySect(1), it.GetPositionFuDescBySect(1), it.GetPositionCai(), it.GetPositionCaiDesc(), it.GetChongGan(), it.GetChongGanTie()), wit)
+				fd("hourBranch", fmt.Sprint(l.GetTimeZhiIndex()), js(it.GetChong(), it.GetSha(), it.GetChongShengXiao(), it.GetShengXiao(), it.GetChong(), it.GetSha(), it.GetChongShengXiao(), it.GetShengXiao()), wit)
+				fd("hourPillar", tgz, js(it.GetNaYin(), it.GetXun(), it.GetXunKong(), it.GetChongDesc(), it.GetNaYin(), it.GetXun(), it.GetXunKong(), it.GetChongDesc(), it.GetGanZhi()), wit)
+				fd("dayBranchExact×hourBranch", fmt.Sprintf("%d|%d", l.GetDayZhiIndexExact(), l.GetTimeZhiIndex()), js(it.GetTianShen(), it.GetTianShenType(), it.GetTianShenLuck(), it.GetTianShen(), it.GetTianShenType(), it.GetTianShenLuck()), wit)
+				fd("dayPillarExact×hourPillar", l.GetDayInGanZhiExact()+"|"+tgz, js(it.GetYi(), it.GetJi(), it.GetYi(), it.GetJi()), wit)
+			}
 		}
 		if d.D == 15 && d.M == 6 && d.Y%100 == 24 {
 			l := d.L()
